@@ -151,7 +151,15 @@ namespace jsoncons {
 
         ~sorted_json_object() noexcept
         {
-            flatten_and_destroy();
+            // Flattening allocates a work list. If that fails, fall back to
+            // ordinary recursive destruction of whatever was not yet moved out.
+            JSONCONS_TRY
+            {
+                flatten_and_destroy();
+            }
+            JSONCONS_CATCH(...)
+            {
+            }
         }
 
         bool empty() const
@@ -720,7 +728,7 @@ namespace jsoncons {
         }
     private:
 
-        void flatten_and_destroy() noexcept
+        void flatten_and_destroy()
         {
             if (!data_.empty())
             {
